@@ -162,7 +162,7 @@ func (in *inst) step(c *vt.Ctx, o fsx.Op) *vt.Deviation {
 		// the handle came from a refused call: there is no handle to mirror
 	case isMutating(o):
 		// a nil handle (failed open) answers ErrInvalid like os: also a refusal
-		if out.Err != "EACCES" && out.Err != "EPERM" && out.Err != "invalid" && out.Err != "closed" &&
+		if out.Err != "EACCES" && out.Err != "EPERM" && out.Err != "invalid" &&
 			!(in.win && (out.Err == "win:5" || out.Err == "win:1314" || out.Err == "win:536871042")) {
 			// ERROR_ACCESS_DENIED, ERROR_PRIVILEGE_NOT_HELD, and avfs's Windows value for "operation not permitted"
 			return mk("not-refused", "a mutating call must fail with a permission-class error")
